@@ -21,6 +21,9 @@ fn replay_program<'t, P: Program<'t>>(p: &P, ncap: usize, paths: &[String]) -> V
             .map(|path| {
                 let r = guarded(|| {
                     let m = p.is_match(path.as_str());
+                    // the same path given as a Path and as an OsStr
+                    let conv_eq = p.is_match(std::path::Path::new(path.as_str())) == m
+                        && p.is_match(std::ffi::OsStr::new(path.as_str())) == m;
                     let candidate = CandidatePath::from(path.as_str());
                     let matched = p.matched(&candidate);
                     let has = matched.is_some();
@@ -46,9 +49,9 @@ fn replay_program<'t, P: Program<'t>>(p: &P, ncap: usize, paths: &[String]) -> V
                             }
                         }
                     }
-                    json!({"p": cps(path), "m": m, "has": has, "caps": caps, "owned_eq": owned_eq, "panic": ""})
+                    json!({"p": cps(path), "m": m, "has": has, "caps": caps, "owned_eq": owned_eq, "conv_eq": conv_eq, "panic": ""})
                 });
-                r.unwrap_or_else(|site| json!({"p": cps(path), "m": false, "has": false, "caps": [], "owned_eq": true, "panic": site}))
+                r.unwrap_or_else(|site| json!({"p": cps(path), "m": false, "has": false, "caps": [], "owned_eq": true, "conv_eq": true, "panic": site}))
             })
             .collect(),
     )
